@@ -234,7 +234,9 @@ class ProgGen:
         # read as prefix + unit). Prefix *name* + unit *name* is not generated: that is the canonical
         # name of an implicitly defined unit, i.e. a redefinition (known finding R10, replayed separately).
         self.used_names = getattr(self, "used_names", set())
-        name = f"{rng.choice(['K', 'M'])}{base}"
+        # symbol + unit, or prefix name + unit name: the latter is the canonical name of the implicitly
+        # registered prefixed unit (finding R10, repaired)
+        name = f"{rng.choice(['K', 'M', 'kilo', 'milli'])}{base}"
         if (ci, name) in self.used_names:
             return f"x{n} = {rng.choice(DEC_FACTORS)} * {base}"  # never the same name twice: that would be a redefinition
         self.used_names.add((ci, name))
